@@ -35,6 +35,7 @@ class State:
         self.ghost = {}
         self.alloc = []        # refs allocated so far (distinct from each other)
         self.old = None        # entry state (for old(...))
+        self.pyfields = {}     # (object term, field) -> python-level value (lists / dicts held by un-aliased objects)
 
     def copy(self):
         s = State()
@@ -45,6 +46,7 @@ class State:
         s.ghost = dict(self.ghost)
         s.alloc = list(self.alloc)
         s.old = self.old
+        s.pyfields = dict(self.pyfields)
         return s
 
     def assume(self, c):
@@ -1540,6 +1542,11 @@ class Exec:
             if ('method:' + name) in self.contract.ghosts:
                 m = self.contract.ghosts['method:' + name]
                 return lambda ex, st2, *a, **k: m(ex, st2, obj, *a, **k)
+            if self.contract.fields.get(name) == 'py':
+                k = (str(obj.r), name)
+                if k not in st.pyfields:
+                    st.pyfields[k] = self.contract.ghosts['pyinit:' + name](self, st, obj)
+                return st.pyfields[k]
             arr, sn = self.field(st, name)
             if isinstance(arr, tuple):
                 payload = z3.Select(arr[0], obj.r)
@@ -1584,6 +1591,9 @@ class Exec:
     def setattr(self, obj, name, v, st, node):
         if not isinstance(obj, ObjRef):
             raise Unsupported('attribute store on %r' % (obj,))
+        if self.contract.fields.get(name) == 'py':
+            st.pyfields[(str(obj.r), name)] = v
+            return
         arr, sn = self.field(st, name)
         if isinstance(arr, tuple):
             ov = OptVal.lift(v, like=OptVal(False, z3.Select(arr[0], obj.r) if sn != 'opt:ref' else ObjRef(z3.Select(arr[0], obj.r))))
